@@ -30,20 +30,24 @@ __CPROVER_assigns(*is_large, *is_zero, *addr, g_map_n, g_map_bytes)
 __CPROVER_ensures((__CPROVER_return_value != 0) ==> (*addr == NULL && g_map_n == __CPROVER_old(g_map_n) && g_map_bytes == __CPROVER_old(g_map_bytes)))
 __CPROVER_ensures((__CPROVER_return_value == 0) ==> (__CPROVER_is_fresh(*addr, size) && g_map_n == __CPROVER_old(g_map_n) + 1 && g_map_bytes == __CPROVER_old(g_map_bytes) + size));
 
+int g_prim_commit_err, g_prim_decommit_err, g_prim_reset_err;   /* logical: what the OS answers (any value) */
+bool g_prim_commit_zero, g_prim_needs_recommit;
 int _mi_prim_commit(void* addr, size_t size, bool* is_zero)
 __CPROVER_requires(__CPROVER_w_ok(is_zero, 1))
 __CPROVER_assigns(*is_zero, g_commit_n, g_commit_addr, g_commit_size)
-__CPROVER_ensures(g_commit_n == __CPROVER_old(g_commit_n) + 1 && g_commit_addr == addr && g_commit_size == size);
+__CPROVER_ensures(g_commit_n == __CPROVER_old(g_commit_n) + 1 && g_commit_addr == addr && g_commit_size == size)
+__CPROVER_ensures(__CPROVER_return_value == g_prim_commit_err && !*is_zero == !g_prim_commit_zero);
 
 int _mi_prim_decommit(void* addr, size_t size, bool* needs_recommit)
 __CPROVER_requires(__CPROVER_w_ok(needs_recommit, 1))
 __CPROVER_assigns(*needs_recommit, g_decommit_n, g_purge_addr, g_purge_size)
-__CPROVER_ensures(g_decommit_n == __CPROVER_old(g_decommit_n) + 1 && g_purge_addr == addr && g_purge_size == size);
+__CPROVER_ensures(g_decommit_n == __CPROVER_old(g_decommit_n) + 1 && g_purge_addr == addr && g_purge_size == size)
+__CPROVER_ensures(__CPROVER_return_value == g_prim_decommit_err && !*needs_recommit == !g_prim_needs_recommit);
 
 int _mi_prim_reset(void* addr, size_t size)
 __CPROVER_requires(1)
 __CPROVER_assigns(g_reset_n, g_purge_addr, g_purge_size)
-__CPROVER_ensures(g_reset_n == __CPROVER_old(g_reset_n) + 1 && g_purge_addr == addr && g_purge_size == size);
+__CPROVER_ensures(g_reset_n == __CPROVER_old(g_reset_n) + 1 && g_purge_addr == addr && g_purge_size == size && __CPROVER_return_value == g_prim_reset_err);
 
 int _mi_prim_protect(void* addr, size_t size, bool protect)
 __CPROVER_requires(1) __CPROVER_assigns() __CPROVER_ensures(1);
